@@ -59,6 +59,7 @@ DEFAULT_PROFILE = {
     "p_describe": 0.0,             # length = Int(n).describe(AutoLength(next)); next = Data(length)
     "p_share_table": 0.3,          # a second selector of a declaration re-uses the options table object of an earlier one
     "p_proto_kept": 0.3,           # the prototype instance of a Ref is kept in a variable and modified after the class statement
+    "p_move_first": 0.0,           # a position written BEFORE .when()/.repeated() (C14 only; see render.field_src)
     "p_backrun": 0.0,              # idiom: fields placed high first, then a run of plain fixed fields placed back at the start
 }
 
@@ -292,6 +293,9 @@ class Gen:
             refs["begins"] = 0
         if op == "shift":
             m["arg"] = {"form": "const", "e": ["c", rng.choice([0, 1, 2, 3, 5])]}
+            if pos_lb >= 2 and rng.random() < self.p["p_backward_at"] * 0.6:
+                # a second view of bytes already consumed (docs/11: Data(4).shift(-4 - 1)); never before the packet's start
+                m["arg"] = {"form": "const", "e": ["c", -rng.randint(1, min(pos_lb, 4))]}
             if ints and rng.random() < 0.3:
                 f = rng.choice(ints)
                 self.hint(f, "small")
@@ -484,7 +488,12 @@ class Gen:
                         f["opt"]["default"] = bytes(rng.choice(b"opq\x00") for _ in range(f["size"]))
                     elif f["t"] == "data" and f["mode"] in ("dyn", "marker"):
                         f["opt"]["default"] = rng.choice([b"", b"k"])
-            if not self.p["flat"] and rng.random() < self.p["p_move"]:
+            if wrap and rng.random() < self.p["p_move_first"]:
+                # Int(1).aligned(4, 'innermost-pkt').when(c): the position is written on the wrapped field, not on the wrapper.
+                # The library ignores such a position; the reference model does not model it at all and only C14 (whose oracle
+                # needs no model) generates it.
+                f["lost_move"] = self.gen_move(ints, pos_lb)
+            elif not self.p["flat"] and rng.random() < self.p["p_move"]:
                 f["move"] = self.gen_move(ints, pos_lb)
             fields.append(f)
             if f["t"] == "int" and plain(f):
